@@ -706,11 +706,11 @@ def c09(ctx):
     gen = tlc_generate(ctx, "HttpMsgGen", "HttpMsgGen.cfg", "httpmsg_domains.json")
     dom = json.load(open(gen))["id"]
     import itertools
-    fields = ["fwd", "strip", "shim", "sessions", "forged", "auth", "kind"]
+    fields = ["fwd", "strip", "shim", "sessions", "forged", "auth", "kind", "asserted"]
     combos = list(itertools.product(*[dom[f] for f in fields]))
     if ctx.tier != "thorough":
         # quick: all flag combinations x all forged/auth/kind classes, sessions only off/on for half
-        combos = [c for c in combos if not (c[3] and c[2])]
+        combos = [c for c in combos if not (c[3] and c[2]) and not (c[7] == "empty" and c[5] not in ("none", "bearer"))]
     cases = []
     for i, c in enumerate(combos):
         d = cap(dict(zip(fields, c)))
